@@ -248,9 +248,20 @@ Proof.
 Qed.
 
 Definition cons_test (sep : str) (t : pyval) : res bool :=
-  if isinstance_cls KTerm t
-  then rand (bind (get_arity t) (fun x => py_eq x (PInt 2))) (bind (get_functor t) (fun x => py_eq x (PStr sep)))
-  else Ok (isinstance_cls KTerm t).
+  (* `isinstance(tail, Term) and tail.arity == 2 and tail.functor == sep`, in the shape the
+     translator emits for a short-circuit `and` *)
+  match Ok (isinstance_cls KTerm t) with
+  | Ok true =>
+      match bind (get_arity t) (fun x => py_eq x (PInt 2)) with
+      | Ok true => bind (get_functor t) (fun x => py_eq x (PStr sep))
+      | Ok false => Ok false
+      | Err e => Err e
+      | OutOfFuel => OutOfFuel
+      end
+  | Ok false => Ok false
+  | Err e => Err e
+  | OutOfFuel => OutOfFuel
+  end.
 
 Lemma len2 : forall (A : Type) (l : list A), (Z.of_nat (length l) =? 2) = Nat.eqb (length l) 2.
 Proof.
@@ -330,7 +341,7 @@ Proof.
       rewrite last_last in Hlast. apply negb_true_iff in Hlast.
       apply (cons_test_enc_false a Hwa Hlast).
     + cbn [size] in Hn. change (x :: m ++ [a]) with ((x :: m) ++ [a]) in Hn.
-      pose proof (length_le_sum ((x :: m) ++ [a])) as HL. rewrite app_length in HL. cbn [length] in HL. match goal with |- ?G => idtac G end. match type of Hn with ?T => idtac T end. match type of HL with ?T => idtac T end. lia.
+      pose proof (length_le_sum ((x :: m) ++ [a])) as HL. rewrite app_length in HL. cbn [length] in HL. cbn [length]. lia.
     + cbn [wf] in Hw. apply andb_true_iff in Hw. destruct Hw as [Hw Hlast].
       apply andb_true_iff in Hw. destruct Hw as [_ Hw].
       change (x :: m ++ [a]) with ((x :: m) ++ [a]) in *. rewrite forallb_app in Hw.
@@ -341,5 +352,120 @@ Proof.
   - (* instance *)
     cbn [wf] in Hw. destruct k; try discriminate. destruct v; try discriminate.
     cbn [enc].
-    match goal with |- ?G => idtac G end.
-Abort.
+    unfold opaque_term, text_nil, text_unit, text_dot, text_comma in Hw.
+    apply andb_true_iff in Hw. destruct Hw as [Hw E3]. apply andb_true_iff in Hw. destruct Hw as [E1 E2].
+    apply negb_true_iff in E1, E2, E3.
+    cbn -[str_eqb Z.eqb]. rewrite E1, E2, !len2.
+    destruct (str_eqb s [46%N]), (str_eqb s [44%N]), (Nat.eqb (length a) 2); try discriminate; reflexivity.
+Qed.
+
+(* ------------------------------------------------------------------ the round trip *)
+Lemma wf_convertible : forall v, wf v = true -> convertible v = true.
+Proof.
+  induction v using pyval_rect'; intros Hw; try discriminate; try reflexivity.
+  - cbn [wf convertible] in *. rewrite forallb_forall in *. rewrite Forall_forall in H. auto.
+  - cbn [wf convertible] in *. apply andb_true_iff in Hw. destruct Hw as [Hw _].
+    apply andb_true_iff in Hw. destruct Hw as [_ Hw].
+    rewrite forallb_forall in *. rewrite Forall_forall in H. auto.
+Qed.
+
+Lemma roundtrip_wf : forall v n, wf v = true -> (fuel_for v <= n)%nat -> roundtrip n v = Ok v.
+Proof.
+  intros v n Hw Hn. unfold roundtrip, fuel_for in *.
+  rewrite py2pl_enc; [|apply wf_convertible; assumption|lia].
+  cbn [bind]. apply pl2py_dec; [assumption|lia].
+Qed.
+
+(* ------------------------------------------------------------------ the comparison used by the tie *)
+Lemma str_eqb_eq : forall a b, str_eqb a b = true -> a = b.
+Proof.
+  induction a as [|x a IH]; destruct b as [|y b]; cbn; intros H; try discriminate; [reflexivity|].
+  apply andb_true_iff in H. destruct H as [H1 H2]. apply N.eqb_eq in H1. subst. f_equal. auto.
+Qed.
+
+Lemma cls_eqb_eq : forall a b, cls_eqb a b = true -> a = b.
+Proof. destruct a, b; cbn; intros; congruence. Qed.
+
+Lemma list_eqb_eq : forall (l1 l2 : list pyval),
+  Forall (fun x => forall y, pyval_eqb x y = true -> x = y) l1 ->
+  list_eqb pyval_eqb l1 l2 = true -> l1 = l2.
+Proof.
+  induction l1 as [|x l1 IH]; destruct l2 as [|y l2]; cbn; intros HF H; try discriminate; [reflexivity|].
+  apply andb_true_iff in H. destruct H as [H1 H2]. inversion HF as [|? ? Hx Hl]; subst.
+  f_equal; auto.
+Qed.
+
+Lemma pyval_eqb_eq : forall a b, pyval_eqb a b = true -> a = b.
+Proof.
+  induction a using pyval_rect'; destruct b; cbn [pyval_eqb]; intros E; try discriminate.
+  - reflexivity.
+  - apply Z.eqb_eq in E. congruence.
+  - apply flt_eqb_eq in E. congruence.
+  - apply str_eqb_eq in E. congruence.
+  - f_equal. apply list_eqb_eq; assumption.
+  - f_equal. apply list_eqb_eq; assumption.
+  - apply andb_true_iff in E. destruct E as [E E3]. apply andb_true_iff in E. destruct E as [E1 E2].
+    apply cls_eqb_eq in E1. apply IHa in E2. apply list_eqb_eq in E3; [|assumption]. congruence.
+Qed.
+
+Lemma res_eqb_ok : forall r v, res_eqb r (Ok v) = true -> r = Ok v.
+Proof.
+  intros [x| |] v H; cbn in H; try discriminate. apply pyval_eqb_eq in H. congruence.
+Qed.
+
+(* ------------------------------------------------------------------ problog_export conversions *)
+Lemma export_int : forall n z,
+  convert_output (S (S n)) (PInt z) ts_int = Ok (PObj KConstant (PInt z) []).
+Proof. intros. reflexivity. Qed.
+
+Lemma export_float : forall n f,
+  convert_output (S (S n)) (PFlt f) ts_float = Ok (constant_of (PFlt f)).
+Proof. intros. reflexivity. Qed.
+
+Lemma export_float_exact : forall n f, float_fixed f = true ->
+  convert_output (S (S n)) (PFlt f) ts_float = Ok (PObj KConstant (PFlt f) []).
+Proof.
+  intros n f H. rewrite export_float. unfold float_fixed in H. cbn in H. apply flt_eqb_eq in H.
+  cbn. rewrite H. reflexivity.
+Qed.
+
+Lemma export_str : forall n s,
+  convert_output (S n) (PStr s) ts_str = Ok (PObj KTerm (PStr s) []).
+Proof. intros. reflexivity. Qed.
+
+Lemma export_term : forall n t, isinstance_cls KTerm t = true ->
+  convert_output (S n) t ts_term = Ok t.
+Proof. intros n t H. cbn. rewrite H. reflexivity. Qed.
+
+Lemma export_list : forall l n, forallb convertible l = true -> (size (PList l) + 2 <= n)%nat ->
+  convert_output n (PList l) ts_list = Ok (list_chain (map enc l)).
+Proof.
+  intros l n Hc Hn. destruct n as [|[|n]]; [cbn in Hn; lia | cbn in Hn; lia |].
+  cbn -[py2pl]. rewrite <- (rev_involutive l) at 1.
+  rewrite (for_fold_gen (py2pl n) (consT text_dot)).
+  - cbn [bind]. rewrite rev_involutive. reflexivity.
+  - intros st x. reflexivity.
+  - rewrite rev_involutive. rewrite Forall_forall. rewrite forallb_forall in Hc. intros x Hx. apply py2pl_enc; auto.
+    pose proof (size_in x l Hx). cbn [size] in Hn. lia.
+Qed.
+
+Lemma import_list : forall l n, forallb wf l = true -> (size (PList l) + 2 <= n)%nat ->
+  convert_input n (list_chain (map enc l)) ts_list = Ok (PList l).
+Proof.
+  intros l n Hw Hn. destruct n as [|[|n]]; [cbn in Hn; lia | cbn in Hn; lia |].
+  cbn -[pl2py enc]. unfold list_chain.
+  erewrite (while_collect text_dot (pl2py n)) with (stop := nilT).
+  - reflexivity.
+  - intros acc a b. reflexivity.
+  - intros acc a b. cbn. rewrite seq_index_0, seq_index_1. cbn. reflexivity.
+  - intros acc. reflexivity.
+  - cbn [size] in Hn. pose proof (length_le_sum l). lia.
+  - rewrite Forall_forall. rewrite forallb_forall in Hw. intros x Hx. apply pl2py_dec; auto.
+    pose proof (size_in x l Hx). cbn [size] in Hn. lia.
+Qed.
+
+Lemma import_scalars : forall n z f s,
+  convert_input (S n) (PObj KConstant (PInt z) []) ts_int = Ok (PInt z) /\
+  convert_input (S n) (PObj KConstant (PFlt f) []) ts_float = Ok (PFlt f) /\
+  convert_input (S n) (PObj KTerm (PStr s) []) ts_term = Ok (PObj KTerm (PStr s) []).
+Proof. intros. repeat split; reflexivity. Qed.
